@@ -384,6 +384,7 @@ static void fill_pt(vsim_probe_t *p, const unsigned char *pt, uint32_t len)
 }
 
 static void g_sign_node_reset(void);
+static void g_ptm_reset(void);
 /* GCM: Ready(ctx, IV, aad) then Encrypt/Decrypt(ctx, ...).  Remember the last Ready per ctx. */
 #define RDY_SLOTS 64
 static struct { const void *ctx; unsigned char iv[16]; uint64_t aad_digest; int aad_len; } g_rdy[RDY_SLOTS];
@@ -397,7 +398,7 @@ static int rdy_slot(const void *ctx)
 }
 
 extern void vsim_hs_skip(int node, int hs_type, int count);
-static void vsim_probe_reset(void) { memset(g_rdy, 0, sizeof g_rdy); g_probe_seq = 0; g_sign_node_reset(); vsim_hs_skip(-1, -1, 0); }
+static void vsim_probe_reset(void) { memset(g_rdy, 0, sizeof g_rdy); g_probe_seq = 0; g_sign_node_reset(); g_ptm_reset(); vsim_hs_skip(-1, -1, 0); }
 int32_t __real_psAesInitGCM(void *ctx, const unsigned char *key, uint8_t keylen);
 int32_t __wrap_psAesInitGCM(void *ctx, const unsigned char *key, uint8_t keylen)
 {
@@ -416,6 +417,31 @@ void __wrap_psAesReadyGCM(void *ctx, const unsigned char *IV, const unsigned cha
     g_rdy[s].aad_digest = aad ? vsim_fnv(aad, aadLen) : 0; g_rdy[s].aad_len = aadLen;
     __real_psAesReadyGCM(ctx, IV, aad, aadLen);
 }
+
+/* byzantine sender: plaintext edit before an AEAD seal */
+static struct { int node; int nth; int64_t off; int w; int mode; uint32_t val; } g_ptm = { -1, 0, 0, 0, 0, 0 };
+static uint64_t g_ptm_fired;
+static void g_ptm_reset(void) { g_ptm.node = -1; g_ptm_fired = 0; }
+void vsim_pt_mutate(int node, int nth, int64_t off, int w, int mode, uint32_t val) { g_ptm.node = node; g_ptm.nth = nth; g_ptm.off = off; g_ptm.w = w < 1 ? 1 : (w > 3 ? 3 : w); g_ptm.mode = mode; g_ptm.val = val; }
+uint64_t vsim_pt_mutated(void) { return g_ptm_fired; }
+static unsigned char *ptm_apply(const unsigned char *pt, size_t len)
+{
+    if (g_ptm.node < 0 || g_ptm.node != vsim_get_node()) { return NULL; }
+    if (g_ptm.nth-- > 0) { return NULL; }
+    g_ptm.node = -1;
+    if (len < (size_t) g_ptm.w || !pt) { return NULL; }
+    unsigned char *t = (unsigned char *) malloc(len);
+    if (!t) { return NULL; }
+    memcpy(t, pt, len);
+    size_t off = (size_t) ((uint64_t) g_ptm.off % (len - (size_t) g_ptm.w + 1));
+    uint32_t cur = 0, v;
+    for (int i = 0; i < g_ptm.w; i++) { cur = cur << 8 | t[off + i]; }
+    switch (g_ptm.mode & 3) { case 1: v = cur + 1; break; case 2: v = cur - 1; break; case 3: v = cur ^ (g_ptm.val ? g_ptm.val : 1); break; default: v = g_ptm.val; break; }
+    for (int i = 0; i < g_ptm.w; i++) { t[off + i] = (unsigned char) (v >> (8 * (g_ptm.w - 1 - i))); }
+    g_ptm_fired++;
+    return t;
+}
+
 void __real_psAesEncryptGCM(void *ctx, const unsigned char *pt, unsigned char *ct, uint32_t len);
 void __wrap_psAesEncryptGCM(void *ctx, const unsigned char *pt, unsigned char *ct, uint32_t len)
 {
@@ -425,7 +451,7 @@ void __wrap_psAesEncryptGCM(void *ctx, const unsigned char *pt, unsigned char *c
     memcpy(p.nonce, g_rdy[s].iv, 12); p.nonce_len = 12; p.aad_digest = g_rdy[s].aad_digest; p.aad_len = g_rdy[s].aad_len;
     fill_pt(&p, pt, len);
     p.iv[0] = 0; memcpy(p.iv, &ctx, sizeof ctx);   /* ctx address: lets the harness attribute the seal to a session */
-    __real_psAesEncryptGCM(ctx, pt, ct, len);
+    { unsigned char *t = ptm_apply(pt, len); __real_psAesEncryptGCM(ctx, t ? t : pt, ct, len); free(t); }
     probe_emit(&p);
 }
 int32_t __real_psAesDecryptGCM(void *ctx, const unsigned char *ct, uint32_t ctLen, unsigned char *pt, uint32_t ptLen);
@@ -463,7 +489,9 @@ int32_t __wrap_psChacha20Poly1305IetfEncrypt(void *ctx, const unsigned char *pt,
     memcpy(p.nonce, iv, 12); p.nonce_len = 12; p.aad_digest = aad ? vsim_fnv(aad, aadLen) : 0; p.aad_len = (int) aadLen;
     fill_pt(&p, pt, (uint32_t) ptLen);
     memcpy(p.iv, &ctx, sizeof ctx);
-    int32_t rc = __real_psChacha20Poly1305IetfEncrypt(ctx, pt, ptLen, iv, aad, aadLen, ct);
+    unsigned char *t = ptm_apply(pt, ptLen);
+    int32_t rc = __real_psChacha20Poly1305IetfEncrypt(ctx, t ? t : pt, ptLen, iv, aad, aadLen, ct);
+    free(t);
     p.rc = rc;
     probe_emit(&p);
     return rc;
